@@ -42,6 +42,7 @@ func genCoreScenario(rng *vrng, idx int64, part string) coreScenario {
 	sc.CfgB.Style = sc.CfgA.Style
 	healAt := rng.between(500, 20000)
 	sc.Net = randomProfile(rng, healAt)
+	sc.Net.Recover = pick(rng, []int{0, 0, 0, 2, 3, 5})
 	for _, o := range sc.Net.Outages {
 		if o[1]+100 > sc.Net.HealAt {
 			sc.Net.HealAt = o[1] + 100
@@ -144,6 +145,7 @@ func runCoreScenario(rec *vrec, sc *coreScenario, rng *vrng, setup func(s *simCo
 	s := newSimCore(rec, sc, sc.CfgA, sc.CfgB, sc.AppA, sc.AppB, sc.Net.fate(netRng), sc.Clock, sc.SnA, sc.SnB)
 	defer s.close()
 	s.deadline = sc.LimitMs
+	s.recoverEvery = sc.Net.Recover
 	if setup != nil {
 		setup(s)
 	}
@@ -164,6 +166,7 @@ func (r coreResult) tally(rec *vrec) {
 	rec.count("core_events", s.events)
 	rec.count("core_datagrams_sent", int64(s.gsent))
 	rec.count("core_datagrams_dropped", s.drops)
+	rec.count("core_datagrams_delivered_late_as_fec_recovered", s.recovered)
 	rec.count("core_datagram_extra_copies", s.dups)
 	for _, e := range s.ends {
 		rec.count("core_recv_calls_checked", e.rReads)
